@@ -20,8 +20,10 @@ Modelling conventions.
   stays silent for ever: the stage deadline fires.
 * The user regex (`ContainsRe.Match`) is an abstract predicate `re : Bytes → Bool`; `hasRe` says
   whether `ContainsRe != nil`.
-* `bytes.ToLower` is modelled on ASCII (`fold`); texts with non-ASCII bytes are outside the
-  correspondence domain.
+* `bytes.ToLower` is modelled as a function of the WHOLE text (`fold`), faithful on ASCII, two-byte
+  Latin-1 letters, caseless three-byte characters and truncated sequences (`inFoldAlphabet`); other
+  texts are outside the correspondence domain. The trigger looks at `fold acc` of the complete
+  accumulation, never at a concatenation of per-read folds.
 * The check function is a parameter of `step`/`run`, so the same loop is instantiated with
   `check` (the code with the repaired not-contains guard), `checkAsIs` (the code as it stands,
   DESIGN §6 F10) and `trigger` (the property's wording).
@@ -29,12 +31,53 @@ Modelling conventions.
 namespace Scrapli.Cb
 open Scrapli
 
-/-- ASCII `bytes.ToLower` on one byte -/
+/-- ASCII `unicode.ToLower` on one byte -/
 def toLowerByte (b : UInt8) : UInt8 :=
   if 65 ≤ b.toNat && b.toNat ≤ 90 then UInt8.ofNat (b.toNat + 32) else b
 
-/-- `bytes.ToLower` (ASCII) -/
-def fold (b : Bytes) : Bytes := b.map toLowerByte
+/-- UTF-8 continuation byte -/
+def isCont (b : UInt8) : Bool := 128 ≤ b.toNat && b.toNat ≤ 191
+
+/-- second byte of `C3 xx` = U+00C0…U+00FF: the upper-case letters À…Ö, Ø…Þ (not ×) map to +0x20 -/
+def lowerLatin1 (x : UInt8) : UInt8 :=
+  if 128 ≤ x.toNat && x.toNat ≤ 158 && x.toNat != 151 then UInt8.ofNat (x.toNat + 32) else x
+
+/-- the replacement character U+FFFD as `bytes.Map` writes it for every invalid byte -/
+def runeError : Bytes := [239, 191, 189]
+
+/-- one decoding step of `bytes.Map(unicode.ToLower, ·)`: how many bytes the first rune takes and
+what is written for it -/
+def foldHead (b : UInt8) (rest : Bytes) : Nat × Bytes :=
+  if b.toNat < 128 then (1, [toLowerByte b])
+  else match rest with
+    | x :: rest' =>
+      if b.toNat == 195 && isCont x then (2, [b, lowerLatin1 x])
+      else match rest' with
+        | y :: _ =>
+          if 227 ≤ b.toNat && b.toNat ≤ 233 && isCont x && isCont y then (3, [b, x, y])
+          else (1, runeError)
+        | [] => (1, runeError)
+    | [] => (1, runeError)
+
+/-- rune by rune, fuel = number of bytes -/
+def foldAux : Nat → Bytes → Bytes
+  | 0, _ => []
+  | _, [] => []
+  | n + 1, b :: rest =>
+    let (w, out) := foldHead b rest
+    out ++ foldAux n ((b :: rest).drop w)
+
+/-- `bytes.ToLower` of a WHOLE text, as Go computes it (`bytes.Map(unicode.ToLower, ·)`: decode rune
+by rune, an undecodable byte becomes U+FFFD), faithful on the byte alphabet `inFoldAlphabet`:
+ASCII, the two-byte Latin-1 letters `C3 xx` (É/é, Ü/ü, …), the caseless three-byte characters
+U+3000…U+9FFF (`E3..E9 xx xx`: kana, CJK) and stray / truncated bytes. Folding is NOT a byte map and
+NOT a homomorphism for concatenation: a character cut in two folds to two U+FFFD, which is why the
+trigger must be evaluated on the fold of the whole accumulated output. -/
+def fold (l : Bytes) : Bytes := foldAux l.length l
+
+/-- bytes on which `fold` is `bytes.ToLower`: no lead byte other than `C3`, `E3…E9` -/
+def inFoldAlphabet (b : Bytes) : Bool :=
+  b.all fun x => x.toNat < 192 || x.toNat == 195 || (227 ≤ x.toNat && x.toNat ≤ 233)
 
 /-- `generic.Callback` (the user function is reduced to "does it return an error") -/
 structure Callback where
